@@ -173,7 +173,7 @@ impl Property for C20 {
     fn runs(&self, tier: Tier) -> u64 {
         match tier {
             Tier::Quick => 5_000,
-            Tier::Thorough => 300_000,
+            Tier::Thorough => 2_000_000,
         }
     }
 
